@@ -126,7 +126,7 @@ func C19(r *drv.Run) {
 	if !quick(r) {
 		rounds = 3000
 	}
-	r.Rule = "rounds of 8..32 goroutines issuing Compile (sources with and without regex groups, with loops, with relocated global patterns, sources that fail in the lexer / parser / regex sub-parser / generator / type checker, sources of about a kilobyte), Compile+Run and Run on shared pre-compiled programs, all released from one barrier, in a -race build of the worker; yield hooks (H2 every lexer read, H3 parser/generator sites, H1 every VM step) armed in half of the rounds. Oracle 1: the Go race detector (GORACE halt_on_error=0, log files parsed, reports de-duplicated by the pair of outermost repository frames): any report is a violation. Oracle 2: every concurrent call's result digest (canonical bytecode with loop ids normalised; all match fields) equals the digest of the same call executed alone in a fresh sequential worker. Oracle 3: canonical bytecode of the shared programs unchanged by the round. Non-trivial = a call whose [call,return] interval overlapped another call's on the shared monotonic clock; distinct by (round, call index)."
+	r.Rule = "rounds of 8..32 goroutines issuing Compile (sources with and without regex groups, with loops, with relocated global patterns, sources that fail in the lexer / parser / regex sub-parser / generator / type checker, sources of about a kilobyte), Compile+Run, Run on shared pre-compiled programs and Run followed by Json()/FormattedJson() of the result list, all released from one barrier, in a -race build of the worker; yield hooks (H2 every lexer read, H3 parser/generator sites, H1 every VM step) armed in half of the rounds. Oracle 1: the Go race detector (GORACE halt_on_error=0, log files parsed, reports de-duplicated by the pair of outermost repository frames): any report is a violation. Oracle 2: every concurrent call's result digest (canonical bytecode with loop ids normalised; all match fields; the rendered JSON texts) equals the digest of the same call executed alone in a fresh sequential worker. Oracle 3: canonical bytecode of the shared programs unchanged by the round. Non-trivial = a call whose [call,return] interval overlapped another call's on the shared monotonic clock; distinct by (round, call index)."
 	r.Assumptions = []string{
 		"the race detector only sees races on schedules that occur; yields and repetition raise the odds, not to certainty",
 		"the harness's own monitor state is atomic in concurrent mode; the step and lexer counters are switched off there",
@@ -149,7 +149,7 @@ func C19(r *drv.Run) {
 	for p := range c19Pool {
 		keys = append(keys, key{"compile", p, 0})
 		for t := range texts {
-			keys = append(keys, key{"compile+run", p, t}, key{"run", p, t})
+			keys = append(keys, key{"compile+run", p, t}, key{"run", p, t}, key{"run+json", p, t})
 		}
 	}
 	// sequential reference digests, one fresh (non-race) worker process per call
@@ -177,7 +177,7 @@ func C19(r *drv.Run) {
 		// few shared programs per round
 		shared := []int{rng.Intn(len(c19Pool)), rng.Intn(len(c19Pool)), rng.Intn(len(c19Pool))}
 		for j := range calls {
-			kinds := []string{"compile", "compile", "compile+run", "run", "run"}
+			kinds := []string{"compile", "compile", "compile+run", "run", "run", "run+json"}
 			p := shared[rng.Intn(3)]
 			if rng.Chance(1, 4) {
 				p = rng.Intn(len(c19Pool))
